@@ -8,6 +8,8 @@ import (
 	"go/types"
 	"strings"
 
+	"golang.org/x/tools/go/ssa"
+
 	"verif/engine/smt"
 )
 
@@ -154,6 +156,18 @@ func init() {
 		"SetHook": func(fr *frame, a []value) (value, bool) {
 			if fr.i.hooks == nil {
 				fr.i.hooks = map[string]value{}
+			}
+			switch f := a[1].(type) {
+			case *ssa.Function:
+				if f == nil {
+					delete(fr.i.hooks, idArg(a[0]))
+					return nil, true
+				}
+			case *closure:
+				if f == nil {
+					delete(fr.i.hooks, idArg(a[0]))
+					return nil, true
+				}
 			}
 			fr.i.hooks[idArg(a[0])] = a[1]
 			return nil, true
